@@ -437,6 +437,7 @@ func BackSlice(v ssa.Value, follow func(c *ssa.Call) bool) map[ssa.Value]bool {
 			walk(x.X)
 		case *ssa.Lookup:
 			walk(x.X)
+			walk(x.Index)
 		case *ssa.Call:
 			if follow != nil && follow(x) {
 				for _, a := range x.Call.Args {
